@@ -24,6 +24,10 @@ class UsageError(Exception):
     pass
 
 
+class ExitStatus(Exception):
+    pass
+
+
 def run_main(file, cmd, ev, mod, flags):
     M = cli_module()
     ns = cached("_cli.main", lambda: rewrite.load(M, ["main"], hooks={"compile": None, "eval": None}, tag="_cli.main"))
@@ -52,7 +56,24 @@ def run_main(file, cmd, ev, mod, flags):
 
         def error(self, msg):
             raise UsageError(msg)
+
+        # the rest of argparse's contract: exit(status=0) ends the process with that status, printing helpers only print
+        def exit(self, status=0, message=None):
+            raise ExitStatus(status)
+
+        def print_help(self, file=None):
+            log.append(("print_help",))
+
+        def print_usage(self, file=None):
+            log.append(("print_usage",))
     ns["parser"] = Parser()
+    argv = ["python-code-data"] + (["prog.py"] if file is not None else []) + [x for o, v in (("-c", cmd), ("-e", ev), ("-m", mod)) if v is not None for x in (o, v)]
+    argv += ["--" + f.replace("_", "-") for f in FLAGS if flags[f]]
+
+    def sys_exit(status=0):
+        raise ExitStatus(status)
+    ns["sys"] = types.SimpleNamespace(argv=argv, exit=sys_exit, stdout=None, stderr=None, version_info=(3, 10, 0))
+    ns["exit"] = sys_exit
     ns["pvhook_compile"] = lambda src, fn, mode: ("CODE", src, fn, mode)
     class EvalStr(str):
         """the program text an -e expression evaluates to (kept by identity: nothing may rewrite it)"""
@@ -89,13 +110,27 @@ def run_main(file, cmd, ev, mod, flags):
     ns["JSON"] = JSON
     ns["show_code_recursive"] = lambda code: log.append(("show_code", code))
     ns["dis"] = types.SimpleNamespace(dis=lambda code: log.append(("dis", code)), show_code=lambda c: None)
-    loader = types.SimpleNamespace(get_code=lambda m: ("MODCODE", m), get_source=lambda m: ("MODSRC", m))
-    ns["importlib"] = types.SimpleNamespace(util=types.SimpleNamespace(find_spec=lambda m: types.SimpleNamespace(loader=loader)))
+    # contract of importlib.util.find_spec in the most adversarial universe: every name is a package that also has a __main__ submodule
+    def find_spec(m, package=None):
+        log.append(("find_spec", m))
+
+        def checked(kind):
+            def get(fullname):
+                if fullname != m:
+                    raise ImportError("loader for %s cannot handle %s" % (m, fullname))
+                return (kind, m)
+            return get
+        loader = types.SimpleNamespace(get_code=checked("MODCODE"), get_source=checked("MODSRC"), is_package=lambda fullname: not m.endswith(".__main__"), name=m)
+        return types.SimpleNamespace(name=m, loader=loader, origin="/lib/%s.py" % m, parent=m.rpartition(".")[0], has_location=True, cached=None,
+                                     submodule_search_locations=None if m.endswith(".__main__") else ["/lib/" + m])
+    ns["importlib"] = types.SimpleNamespace(util=types.SimpleNamespace(find_spec=find_spec), import_module=lambda m: (_ for _ in ()).throw(AssertionError("the module must not be imported (executed)")))
     try:
         ns["main"]()
         return "ok", log
     except UsageError as e:
         return "usage", log
+    except ExitStatus as e:
+        return ("usage" if e.args[0] == 2 else "exit status %r" % (e.args[0],)), log
 
 
 VALS = [None, "", "x = 1\\ny = '\u00e9 \\\\t'"]
